@@ -6,6 +6,16 @@ HERE = os.path.dirname(os.path.dirname(os.path.abspath(__file__)))
 
 # id -> (technique, level text, level note, design ref)
 CHECKS = {
+    "C01": (
+        "reference-model monitor: executable reference interpreter (irexec) over the typed IR of the source vs. the re-read emitted HLSL, on generated programs and argument vectors",
+        "Every function of thousands of generated, type-checked programs (plus a directed operator-pair / unary-chain table) is executed by an "
+        "independent reference interpreter on the source IR (left-to-right and right-to-left; undefined or order-dependent samples discarded) "
+        "and on the emitted DirectX and Vulkan HLSL read back through the front end; return value, out/inout parameters and static globals "
+        "must be bit identical. Exploration: held on the samples compared, which the evidence counts per feature.",
+        "Trusts the interpreter's semantics (DESIGN appendix A) and uses rssl's own front end to read the emitted text (oracle iii): faults the "
+        "front end repeats symmetrically are covered by C09/C04, not here. Shared transcendental kernels: only which intrinsic/arguments is checked.",
+        "DESIGN.md §5 C01, appendix A",
+    ),
     "C08": (
         "process-level runtime monitor: supervised child processes, panic/abort/step-budget classification over hostile generated inputs",
         "Every compile() execution of a large hostile workload (byte/token/structured soups, mutated unit-test snippets and corpus files, "
